@@ -13,7 +13,7 @@ func (i Integer) number() {}
 // WriteTerm outputs the Integer to an io.Writer.
 func (i Integer) WriteTerm(w io.Writer, opts *WriteOptions, _ *Env) error {
 	ew := errWriter{w: w}
-	openClose := opts.left.name == atomMinus && opts.left.specifier.class() == operatorClassPrefix && i > 0
+	openClose := opts.left.name == atomMinus && opts.left.specifier.class() == operatorClassPrefix && i >= 0 // -(0) isn't the integer 0.
 
 	if openClose {
 		_, _ = ew.Write([]byte(" ("))
